@@ -1,12 +1,12 @@
 (* SDevice: the analytic Hessian of the model (the code differentiates numerically) is the Jacobian of the reported marginal
    cost INCLUDING the deep-discharge term, away from the kinks: no slot's state of charge sits exactly on the damage level,
    and (when lossy) no slot flow is exactly 0. Every horizon length. *)
-From Coq Require Import ZArith Reals List Bool Arith Lia Lra.
+From Coq Require Import ZArith Reals List Bool Arith Lia Lra Psatz.
 From Coquelicot Require Import Coquelicot.
 From DK Require Import Num NumR Vec.
 From DK.Gen Require Import Kernels.
 From DK.Model Require Import Leaf Fn Dev DocSpec StateSpec.
-From DK.Proofs Require Import VecFacts RVec KernelR C09Proofs Calc C15Proofs C01Proofs C14Proofs.
+From DK.Proofs Require Import VecFacts RVec KernelR C09Proofs Calc C15Proofs C01Proofs C14Proofs Convex C07Proofs.
 Import ListNotations.
 Local Open Scope R_scope.
 
@@ -152,3 +152,98 @@ Proof.
     assert (E3 : stored (1 / 2) (1 / 2) = 1 / 4) by (rewrite (proj1 (stored_cases _ _)); lra).
     rewrite E1, E2, E3. simpl in Hi. destruct i as [|[|[|i]]]; simpl; try lra. lia.
 Qed.
+
+(* ====================================================================================================================== *)
+(* Convexity of lossy two-way storage: r -> r*e^sign(r) is concave for 0 < e <= 1 (it is min(e r, r/e)), the state of charge *)
+(* is a non-negative combination of such terms, and (min(u - D, 0))^2 is convex and non-increasing in u.                      *)
+(* ====================================================================================================================== *)
+Lemma psi_min e v : 0 < e <= 1 -> psi e v = Rmin (e * v) (v / e).
+Proof.
+  intros He. assert (Hi : 1 <= / e) by (rewrite <- Rinv_1; apply Rinv_le_contravar; lra).
+  assert (Hie : e * / e = 1) by (apply Rinv_r; lra).
+  unfold psi, Rdiv. destruct (Rtotal_order v 0) as [Hn|[->|Hp]].
+  - rewrite effof_neg by auto. rewrite Rmin_right; [unfold Rdiv; ring|]. nra.
+  - unfold effof. numR. unfold Reqb. destruct (Req_EM_T 0 0); [|contradiction]. rewrite !Rmult_0_r, Rmult_0_l. now rewrite Rmin_left by lra.
+  - rewrite effof_pos by auto. rewrite Rmin_left; [ring|]. nra.
+Qed.
+
+Lemma psi_concave e u v l : 0 < e <= 1 -> 0 <= l <= 1 -> l * psi e u + (1 - l) * psi e v <= psi e (l * u + (1 - l) * v).
+Proof.
+  intros He Hl. rewrite !psi_min by auto.
+  pose proof (Rmin_l (e * u) (u / e)). pose proof (Rmin_r (e * u) (u / e)).
+  pose proof (Rmin_l (e * v) (v / e)). pose proof (Rmin_r (e * v) (v / e)).
+  apply Rmin_glb.
+  - replace (e * (l * u + (1 - l) * v)) with (l * (e * u) + (1 - l) * (e * v)) by ring. nra.
+  - replace ((l * u + (1 - l) * v) / e) with (l * (u / e) + (1 - l) * (v / e)) by (unfold Rdiv; ring). nra.
+Qed.
+
+Lemma effv_cons e (v : R) r : effv e (v :: r) = psi e v :: effv e r.
+Proof. reflexivity. Qed.
+
+Lemma dot_effv_concave e l : 0 < e <= 1 -> 0 <= l <= 1 -> forall x y, length x = length y ->
+  forall a, (forall j, 0 <= nth j a 0) ->
+  l * dot a (effv e x) + (1 - l) * dot a (effv e y) <= dot a (effv e (vlerp l x y)).
+Proof.
+  intros He Hl x y HL. pattern x, y. apply list_ind2; auto; clear x y HL.
+  - intros a _. rewrite vlerp_nil. unfold effv; simpl. destruct a; unfold dot; simpl; lra.
+  - intros u x v y HL IH a Ha. rewrite vlerp_cons, !effv_cons. destruct a as [|a0 a]; [unfold dot; simpl; lra|].
+    rewrite !dot_cons. pose proof (Ha 0%nat) as H0. cbn [nth] in H0.
+    pose proof (IH a (fun j => Ha (S j))) as IH'. pose proof (psi_concave e u v l He Hl). nra.
+Qed.
+
+Lemma sust_row_nonneg (s : R) n i j : 0 <= s -> 0 <= nth j (sust_row s n i) 0.
+Proof.
+  intros Hs. destruct (lt_dec j n) as [Hj|Hj].
+  - rewrite sust_row_nth by auto. destruct (j <=? i)%nat; [apply pow_le; auto|lra].
+  - rewrite nth_overflow; [lra|]. rewrite sust_row_length. lia.
+Qed.
+
+Lemma sdev_charge_concave q l (x y : list R) i : 0 < sp_eff q <= 1 -> 0 <= sp_sus q -> 0 <= l <= 1 -> length x = length y ->
+  (i < length x)%nat ->
+  l * nth i (sdev_charge q x) 0 + (1 - l) * nth i (sdev_charge q y) 0 <= nth i (sdev_charge q (vlerp l x y)) 0.
+Proof.
+  intros He Hs Hl HL Hi. unfold sdev_charge. rewrite vlerp_length by auto.
+  rewrite !nth_vadd by (rewrite ?base_soc_length, ?soc_length, ?vlerp_length; auto; lia).
+  rewrite !nth_soc by (rewrite ?vlerp_length; auto; lia). rewrite vlerp_length by auto. rewrite <- HL.
+  pose proof (dot_effv_concave (sp_eff q) l He Hl x y HL (sust_row (sp_sus q) (length x) i) (fun j => sust_row_nonneg _ _ _ j Hs)). lra.
+Qed.
+
+Lemma msq_antitone D u v : u <= v -> msq D v <= msq D u.
+Proof.
+  intros Huv. unfold msq, nsq. rewrite !nmin_Rmin.
+  assert (Rmin (u - D) 0 <= Rmin (v - D) 0) by (apply Rle_min_compat_r; lra).
+  pose proof (Rmin_r (v - D) 0). pose proof (Rmin_r (u - D) 0). numR. nra.
+Qed.
+
+Lemma vsum_map_le_lin {B} (f g h : B -> R) a b (l : list B) : (forall i, In i l -> f i <= a * g i + b * h i) ->
+  vsum (map f l) <= a * vsum (map g l) + b * vsum (map h l).
+Proof.
+  induction l as [|i l IH]; intros Hall; simpl; [lra|]. rewrite ?vsum_cons.
+  pose proof (Hall i (or_introl eq_refl)). pose proof (IH (fun j Hj => Hall j (or_intror Hj))). lra.
+Qed.
+
+Lemma convex_sdevice_lossy n b cb q p : 0 < sp_eff q <= 1 -> 0 <= sp_sus q -> 0 <= sp_c2 q <= sp_c1 q -> 0 <= sp_c3 q -> length b = n ->
+  convex_on (in_box_R b) (fun s => leaf_cost (Build_leafdev n b cb (KS q)) s p).
+Proof.
+  intros He Hs Hc Hc3 Hb. unfold leaf_cost; cbn [ld_kind]. unfold sdev_cost, sdev_pref. numR.
+  apply convex_plus; [|apply convex_price].
+  apply (convex_weaken (fun x => length x = n)); [intros x [Lx _]; lia|].
+  set (D := sp_capacity q * sp_depth q).
+  apply (convex_ext _ (fun r => Qf (sp_c1 q) (sp_c2 q) r + sp_c3 q * vsum (map (fun i => msq D (nth i (sdev_charge q r) 0)) (seq 0 n)))).
+  - intros x Lx. unfold Qf. rewrite vsum_nsq. f_equal. f_equal. unfold sdev_short. rewrite map_map.
+    rewrite (vsum_map_as_idx (msq D)), (vsum_map_idx_seq (fun _ u => msq D u)), sdev_charge_length, Lx. reflexivity.
+  - intros x y l Lx Ly _. rewrite vlerp_length; lia.
+  - apply convex_plus; [apply convex_Qf; auto|]. apply convex_scal; auto.
+    intros x y l Lx Ly Hl.
+    apply (vsum_map_le_lin (fun i => msq D (nth i (sdev_charge q (vlerp l x y)) 0))
+                           (fun i => msq D (nth i (sdev_charge q x) 0)) (fun i => msq D (nth i (sdev_charge q y) 0))).
+    intros i Hi. apply in_seq in Hi.
+    pose proof (sdev_charge_concave q l x y i He Hs Hl ltac:(lia) ltac:(lia)) as Hcc.
+    pose proof (msq_antitone D _ _ Hcc) as H1.
+    pose proof (sconvex_all_of (fun u => nsq (nmin (A:=R) (u - D) 0)) (fun lo0 hi0 => sconvex_msq D lo0 hi0)
+                  (nth i (sdev_charge q x) 0) (nth i (sdev_charge q y) 0) l Hl) as H2.
+    unfold msq in *. lra.
+Qed.
+
+Lemma example_lossy_params : 0 < sp_eff ex_q <= 1 /\ 0 <= sp_sus ex_q /\ 0 <= sp_c2 ex_q <= sp_c1 ex_q /\ 0 <= sp_c3 ex_q.
+Proof. simpl. lra. Qed.
